@@ -117,19 +117,31 @@ func VerifyFunc(w *World, cs *ContractSet, ct *Contract) *FuncResult {
 	e.topMods, e.topStar = mods, star || ct.Kind == "lemma"
 	rets, out := e.run(fn, args, nil, st, ct)
 	if out != nil {
-		all := append(append([]Value{}, args...), rets...)
-		for i, cl := range ct.Ensures {
-			if cl.GenFn == "" {
-				continue
-			}
-			g, ok := e.evalSpec(out, ct.PkgPath, cl.GenFn, all, entry)
-			if !ok {
-				continue
-			}
-			n0 := len(e.obls)
-			e.oblige(out, "post", "post."+clauseName(cl, i), g, cl.Line)
-			if len(cl.Props) > 0 && len(e.obls) > n0 {
-				e.obls[len(e.obls)-1].Props = cl.Props
+		// postconditions are checked per return path (smaller, branch-specific VCs); the merged exit
+		// state is used for the frame check
+		trs := e.topRets
+		if len(trs) == 0 || len(trs) > 64 {
+			trs = []retInfo{{out, rets}}
+		}
+		for ri, tr := range trs {
+			all := append(append([]Value{}, args...), tr.vals...)
+			for i, cl := range ct.Ensures {
+				if cl.GenFn == "" {
+					continue
+				}
+				g, ok := e.evalSpec(tr.st, ct.PkgPath, cl.GenFn, all, entry)
+				if !ok {
+					continue
+				}
+				n0 := len(e.obls)
+				nm := "post." + clauseName(cl, i)
+				if len(trs) > 1 {
+					nm = fmt.Sprintf("%s@r%d", nm, ri+1)
+				}
+				e.oblige(tr.st, "post", nm, g, cl.Line)
+				if len(cl.Props) > 0 && len(e.obls) > n0 {
+					e.obls[len(e.obls)-1].Props = cl.Props
+				}
 			}
 		}
 		if !star && ct.Kind != "lemma" {
@@ -214,7 +226,18 @@ func (e *Exec) frameFormula(k string, ot, nt Term, mods []*Ptr, alloc Term) (Ter
 				}
 			}
 		}
-		goal = fmt.Sprintf("(forall ((a Int) (i Int)) (! (=> (and (< 0 a) (<= a %s) %s) (= (select (select %s a) i) (select (select %s a) i))) :pattern ((select (select %s a) i))))", alloc0, strings.Join(excl, " "), nt.S, ot.S, nt.S)
+		elemLevel := false
+		for _, x := range excl {
+			if strings.Contains(x, "(= i ") {
+				elemLevel = true
+			}
+		}
+		if elemLevel {
+			goal = fmt.Sprintf("(forall ((a Int) (i Int)) (! (=> (and (< 0 a) (<= a %s) %s) (= (select (select %s a) i) (select (select %s a) i))) :pattern ((select (select %s a) i))))", alloc0, strings.Join(excl, " "), nt.S, ot.S, nt.S)
+		} else {
+			// whole backing arrays: one instantiation per array, usable under quantifiers over elements
+			goal = fmt.Sprintf("(forall ((a Int)) (! (=> (and (< 0 a) (<= a %s) %s) (= (select %s a) (select %s a))) :pattern ((select %s a))))", alloc0, strings.Join(excl, " "), nt.S, ot.S, nt.S)
+		}
 	case strings.HasPrefix(k, "G."):
 		var excl []string
 		for _, p := range mods {
